@@ -164,6 +164,31 @@ Theorem C17_get_events_paths : forall e,
 Proof. exact get_events_paths. Qed.
 Print Assumptions C17_get_events_paths.
 
+(* for ordinary declarations (identifier names, package without ':', no baseUrlPath override)
+   the paths are literally /<pkg>/<snake name>/q/{k}.. and .../events over the primary+shard keys *)
+Theorem C17_default_paths : forall e,
+  e_base_url e = [] -> ident (e_name e) = true -> no_colon (e_pkg e) = true ->
+  Forall (fun k => ident (uf_name (k_def k)) = true) (e_keys e) ->
+  nth 0 (query_paths e) [] = query_base e ++ flat_map (fun u => 47 :: brace u) (get_keys e)
+  /\ nth 2 (query_paths e) [] =
+       query_base e ++ flat_map (fun u => 47 :: brace u) (get_keys e) ++ bs "/events"
+  /\ query_params_ok e = true.
+Proof. exact default_paths. Qed.
+Print Assumptions C17_default_paths.
+
+(* component names are proto identifiers: ToCamel yields letters and digits only and, for an
+   identifier starting with a letter, starts with a capital *)
+Theorem C17_component_names_alnum : forall e suffix,
+  forallb alnum (component_name e suffix) = true.
+Proof. exact component_names_alnum. Qed.
+Print Assumptions C17_component_names_alnum.
+
+Theorem C17_camel_name_starts_cap : forall e c r,
+  e_name e = c :: r -> is_letter c = true -> ident (c :: r) = true ->
+  exists c' t, camel_name e = c' :: t /\ is_cap c' = true.
+Proof. exact camel_name_starts_cap. Qed.
+Print Assumptions C17_camel_name_starts_cap.
+
 (* 7. statuses are numbered 1..n in declaration order after <PREFIX>UNSPECIFIED = 0
       (the hypothesis excludes a first status that itself ends in UNSPECIFIED, which
       visitEnumNode puts in slot 0) *)
